@@ -26,16 +26,18 @@ Theorem C19_empty_scene_raises : forall unit_known sc, sc_aircraft sc = [] -> lo
 Proof. exact empty_scene_raises. Qed.
 Print Assumptions C19_empty_scene_raises.
 
-(* aircraft names in the state setters / remove_aircraft / trims, pitch control, file extension *)
+(* aircraft names in the state setters / remove_aircraft / trims, pitch control, file extension: an input file must contain its extension,
+   an output file (distributions, export_stl, export_vtk) must end with it - fix d06e743: "d.csv.txt" is not a .csv file *)
 Theorem C19_names : forall names,
   (forall g n, resolve_name names g = Acts n -> In n names) /\
   (forall m, ~ In m names -> resolve_name names (Some m) = CallRaises) /\
   (forall a b r, resolve_name (a :: b :: r) None = CallRaises) /\ resolve_name [] None = CallRaises /\
   (forall controls p, trim_control_ok controls p = true <-> In p controls) /\
-  (forall ext f, extension_ok ext f = true <-> exists a b, f = (a ++ ext ++ b)%string).
+  (forall ext f, extension_ok ext f = true <-> exists a b, f = (a ++ ext ++ b)%string) /\
+  (forall ext f, ends_with ext f = true <-> exists a, f = (a ++ ext)%string).
 Proof.
   intro names. split; [intros g n; apply resolve_acts|]. split; [apply resolve_unknown|].
-  split; [reflexivity|]. split; [reflexivity|]. split; [apply trim_control_spec | apply extension_spec].
+  split; [reflexivity|]. split; [reflexivity|]. split; [apply trim_control_spec|]. split; [apply extension_spec | apply ends_with_spec].
 Qed.
 Print Assumptions C19_names.
 
